@@ -344,7 +344,9 @@ Section Pipeline.
         else None
     end.
 
-  (* signer/plugin.go: areUnknownAttributesAdded *)
+  (* signer/plugin.go: areUnknownAttributesAdded (every member of the document
+     and of its targetArtifact object is inspected, duplicates included; the
+     documents here come from the encoder and have no duplicated member) *)
   Definition unknown_attrs (b : bytes) : list string :=
     filter (fun k => negb (mem_str k ["mediaType"; "digest"; "size"; "urls"; "annotations"; "data"; "platform"; "artifactType"])) (tgt_keys b)
     ++ filter (fun k => negb (k =? "targetArtifact")) (top_keys b).
@@ -742,11 +744,17 @@ Definition spec_ok (i : input) (o : obs) : bool :=
 
 Record case := mk_case { c_id : N; c_in : input; c_obs : obs }.
 
-(* footprint 1: the JWS number defect — an OCI descriptor whose size does not
-   survive float64, signed into a JWS envelope *)
+(* footprint 1: the KNOWN JWS number defect — an OCI descriptor whose size does
+   not survive float64, signed into a JWS envelope, and the implementation did
+   exactly what the faithful model of that defect predicts. Anything else
+   (another input class, or a deviation from the model on such an input) has
+   footprint 0 and is reported. *)
 Definition fp (c : case) : N :=
   match i_target (c_in c) with
-  | TOCI d => if (i_format (c_in c) =? mt_jws) && negb (jws_number (d_size d) =? d_size d)%Z then 1%N else 0%N
+  | TOCI d =>
+      if (i_format (c_in c) =? mt_jws) && negb (jws_number (d_size d) =? d_size d)%Z
+         && obs_eqb (model (c_in c)) (c_obs c)
+      then 1%N else 0%N
   | _ => 0%N
   end.
 
